@@ -88,6 +88,10 @@ func (g *Graph) failingExpr(e ast.Expr, s nnSet) bool {
 		if v, ok := g.Info.Uses[x.Sel].(*types.Var); ok && v.Pkg() != nil && v.Parent() == v.Pkg().Scope() {
 			return isSentinel(v)
 		}
+		// an error FIELD that was stored a failing value on this path (l.err = err)
+		if v, ok := g.Info.Uses[x.Sel].(*types.Var); ok && v.IsField() && s[v] {
+			return true
+		}
 	case *ast.UnaryExpr:
 		if x.Op == token.AND {
 			if _, ok := ast.Unparen(x.X).(*ast.CompositeLit); ok {
@@ -148,11 +152,19 @@ func (g *Graph) nnStep(n *Node, s nnSet) nnSet {
 	switch st := n.N.(type) {
 	case *ast.AssignStmt:
 		for i, l := range st.Lhs {
-			id, ok := l.(*ast.Ident)
-			if !ok || id.Name == "_" {
-				continue
+			var o types.Object
+			switch lx := l.(type) {
+			case *ast.Ident:
+				if lx.Name == "_" {
+					continue
+				}
+				o = ObjOf(g.Info, lx)
+			case *ast.SelectorExpr:
+				// x.errField = …: tracked by the field (receiver path ignored)
+				if v, ok := g.Info.Uses[lx.Sel].(*types.Var); ok && v.IsField() && IsErrorType(v.Type()) {
+					o = v
+				}
 			}
-			o := ObjOf(g.Info, id)
 			if o == nil {
 				continue
 			}
